@@ -29,7 +29,6 @@ package iter
 //@ at return assert value-is-the-hash-of-the-link-that-was-stepped-over: v != nil ==> next != nil && v.x == next.Hash.x
 //@ at return assert key-is-that-links-own-name: k != nil && next != nil && next.Name.m == 2 && itr.transformName == nil ==> k.x == next.Name.v.x
 
-
 // The constructors wrap exactly the link iterator and the name transformer they are given.
 //@ func iter.NewUnixFSDirMapIterator
 //@ prop C02 C15
